@@ -248,7 +248,7 @@ fn e1_main(a: &Args) -> i32 {
             }
             nontrivial.insert(h.0);
         }
-        if samples.len() < 3 && run2.threads.len() >= 2 && rep.switches_in_call >= 1 {
+        if samples.len() < 3 && run2.threads.len() >= 2 && rep.switches_in_call >= 1 && rep.choices.len() <= 160 {
             let mut r = run2.clone();
             r.schedule = Some(rep.choices.clone());
             samples.push(r.to_json());
